@@ -62,7 +62,8 @@ def gen_meta(rng, focus=None):
             q = g.request(meth)
             toks = wire.encode_args(q)[:rng.choice([0, 1, 3])]
         if not known:
-            meth = rng.choice(['XYZ', 'SUB', 'DPI2', 'NUSX'])
+            # unknown to a Metadata server: junk names, Data-server methods, the OTHER server kind's init request name
+            meth = rng.choice(['XYZ', 'SUB', 'DPI2', 'NUSX', 'DPI', 'DPI', 'USB', 'RAC', 'KEEPALIVE'])
         text = b'|'.join([wid.encode(), meth.encode()] + toks) + b'\r\n'
         if outcome is None:
             x = rng.random()
@@ -135,8 +136,9 @@ def gen_data(rng, focus=None):
             text = ('%s|SUB|X|%s\r\n' % (wid, item)).encode()
             lines.append(Line(text, [sym('req'), A(r), B(False), B(True)], r, 'SUB', None, 'valid', 'req'))
         elif x < 0.92:
-            text = ('%s|NUS|S|u|S|p\r\n' % wid).encode()
-            lines.append(Line(text, [sym('req'), A(r), B(True), B(False)], r, 'NUS', None, 'valid', 'req'))
+            um = rng.choice(['NUS', 'MPI', 'MPI', 'XYZ', 'sub'])
+            text = ('%s|%s|S|u|S|p\r\n' % (wid, um)).encode()
+            lines.append(Line(text, [sym('req'), A(r), B(True), B(False)], r, um, None, 'valid', 'req'))
         else:
             if shape >= 0.75 or rng.random() < 0.5:
                 add_init('1.9.1')
